@@ -32,6 +32,7 @@ func c04Params(thorough bool) []histParams {
 		// the validity TTL set to zero: every request revalidates
 		{Name: "V0-R100-L200-revalidate-every-request", V: 0, R: 100, L: 200, G: 70, Gaps: []int64{20, 60, 220}, Policy: pol, User: carol, Alphabet: "c04", MaxDepth: 6},
 		{Name: "V40-R100-L200-upstream-sets-cookie", V: 40, R: 100, L: 200, G: 70, Gaps: []int64{20, 60, 120, 220}, Policy: pol, User: carol, Alphabet: "c04", MaxDepth: 12, UpstreamCookie: true},
+		{Name: "V40-R100-L200-long-tokens", V: 40, R: 100, L: 200, G: 70, Gaps: []int64{20, 60, 120, 220}, Policy: pol, User: carol, Alphabet: "c04", MaxDepth: 12, LongTokens: true},
 	}
 	if thorough {
 		ps = append(ps,
@@ -48,7 +49,9 @@ func c05Params(thorough bool) []histParams {
 	ps := []histParams{{Name: "G70-V40-R100-L300", V: 40, R: 100, L: 300, G: 70, Gaps: []int64{30, 50, 80, 110}, Policy: pol, User: carol, Alphabet: "c05", MaxDepth: 4},
 		// the grace period switched off: an unavailable authenticator at a due check always refuses
 		{Name: "G0-V40-R100-L300-grace-off", V: 40, R: 100, L: 300, G: 0, Gaps: []int64{30, 50, 110}, Policy: pol, User: carol, Alphabet: "c05", MaxDepth: 4},
-		{Name: "G70-V40-R100-L300-upstream-sets-cookie", V: 40, R: 100, L: 300, G: 70, Gaps: []int64{30, 50, 80, 110}, Policy: pol, User: carol, Alphabet: "c05", MaxDepth: 4, UpstreamCookie: true}}
+		{Name: "G70-V40-R100-L300-upstream-sets-cookie", V: 40, R: 100, L: 300, G: 70, Gaps: []int64{30, 50, 80, 110}, Policy: pol, User: carol, Alphabet: "c05", MaxDepth: 4, UpstreamCookie: true},
+		// tokens as long as real signed tokens: the sealed session no longer fits 4096 bytes
+		{Name: "G70-V40-R100-L300-long-tokens", V: 40, R: 100, L: 300, G: 70, Gaps: []int64{30, 50, 80, 110}, Policy: pol, User: carol, Alphabet: "c05", MaxDepth: 4, LongTokens: true}}
 	if thorough {
 		ps = []histParams{
 			{Name: "G70-V40-R100-L300", V: 40, R: 100, L: 300, G: 70, Gaps: []int64{30, 50, 80, 110}, Policy: pol, User: carol, Alphabet: "c05", MaxDepth: 40},
